@@ -155,8 +155,9 @@ pub fn read_message<'a, T: Read>(bytes: &mut T, buf: &'a mut [u8; 4096])
     }
 
     let len = u16::from_be_bytes([buf[16], buf[17]]) as usize;
-    if len > 4096 {
-        println!("jumbo? (len: {len}) {:x?}", &buf[..20]);
+    if !(19..=4096).contains(&len) {
+        // shorter than the header, or larger than `buf`
+        return Err("invalid length");
     }
 
     // including marker+length+type
